@@ -18,6 +18,10 @@ type ccase struct {
 	other     [][2][][]int // IP: the (args, rets) of the competing function spec
 	bodyAll   bool
 	malformed bool
+	// IE: interface J_<id> embeds I_<id> (which declares the method); the call is made on a J value.
+	// embed: which specs exist — "same": J.M = I.M = spec; "diff": J.M = spec, I.M = the complement;
+	// "absentI": J.M = spec only; "onlyI": I.M = spec only (no spec applies to the call: the body decides)
+	embed string
 }
 
 const slots = 16 // sink id = sid*slots + slot; slot j<4: result j; slot 4+k: argument k after the call
@@ -95,6 +99,9 @@ func (c *ccase) render(b *strings.Builder, used map[string]bool) {
 		if c.form != "FM" && c.form != "MV" {
 			fmt.Fprintf(b, "type I_%d interface {\n\t%s(%s)%s\n}\n\n", c.id, name, params(1, c.n), results(c.m))
 		}
+		if c.form == "IE" {
+			fmt.Fprintf(b, "type J_%d interface {\n\tI_%d\n}\n\n", c.id, c.id)
+		}
 		fmt.Fprintf(b, "func (a0 *T) %s(%s)%s %s\n", name, params(1, c.n), results(c.m), body(c))
 	}
 	if c.n == 0 {
@@ -146,6 +153,8 @@ func (c *ccase) render(b *strings.Builder, used map[string]bool) {
 			fmt.Fprintf(b, "\t%sa0.%s(%s)\n", lhs, name, strings.Join(as, ", "))
 		case "MV":
 			fmt.Fprintf(b, "\th := a0.%s\n\t%sh(%s)\n", name, lhs, strings.Join(as, ", "))
+		case "IE":
+			fmt.Fprintf(b, "\tvar x J_%d = a0\n\t%sx.%s(%s)\n", c.id, lhs, name, strings.Join(as, ", "))
 		default:
 			fmt.Fprintf(b, "\tvar x I_%d = a0\n\t%sx.%s(%s)\n", c.id, lhs, name, strings.Join(as, ", "))
 		}
@@ -193,6 +202,21 @@ func specs(mod string, cs []*ccase) []byte {
 			fn.Methods[c.fname()] = sum
 		case "FM", "MV":
 			mt.Methods[c.fname()] = sum
+		case "IE":
+			other := specSummary{nonNil(c.other[0][0]), nonNil(c.other[0][1])}
+			jc := specContract{InterfaceID: fmt.Sprintf("%s.J_%d", mod, c.id), Methods: map[string]specSummary{c.fname(): sum}}
+			ic := specContract{InterfaceID: fmt.Sprintf("%s.I_%d", mod, c.id), Methods: map[string]specSummary{c.fname(): sum}}
+			switch c.embed {
+			case "same":
+				all = append(all, jc, ic)
+			case "diff":
+				ic.Methods[c.fname()] = other
+				all = append(all, jc, ic)
+			case "absentI":
+				all = append(all, jc)
+			case "onlyI":
+				all = append(all, ic)
+			}
 		case "I", "IP":
 			all = append(all, specContract{InterfaceID: fmt.Sprintf("%s.I_%d", mod, c.id), Methods: map[string]specSummary{c.fname(): sum}})
 			if c.form == "IP" {
